@@ -55,6 +55,24 @@ MANIFEST = {
 PCMOD = 'vizier._src.pyvizier.shared.parameter_config'
 
 
+
+def _last(c: ast.Call) -> str:
+  """Last component of the called name: `_f(..)`, `cls._f(..)`, `self._f(..)`, `Cls._f(..)` all name `_f`."""
+  d = dotted(c.func) or ''
+  head, _, tail = d.rpartition('.')
+  return tail if head.count('.') == 0 else ''
+
+
+def _anchor_fn(mod, name: str):
+  """A private helper by name, wherever the module keeps it (module level, or a static/class method)."""
+  if name in mod.functions:
+    return mod.functions[name]
+  for ci in mod.classes.values():
+    if name in ci.methods:
+      return ci.methods[name]
+  return None
+
+
 def _calls_named(node, name) -> List[ast.Call]:
   return [c for c in flow.calls_in(node) if (dotted(c.func) or '').split('.')[-1] == name]
 
@@ -171,7 +189,7 @@ def r1_factory(ctx, mod, pc) -> None:
             '`if not name: raise` dominates the constructor', 'a ParameterConfig can be built with an empty name',
             construct='name', func=fi.qualname)
   # bounds arms
-  vb = [n for n in g.nodes if any((dotted(c.func) or '') == '_validate_bounds' for c in flow.node_calls(n))]
+  vb = [n for n in g.nodes if any(_last(c) == '_validate_bounds' for c in flow.node_calls(n))]
   arms = [n for n in g.nodes if n.kind == 'test' and 'isinstance(bounds[0]' in unparse(n.ast, 0)]
   ok = bool(arms)
   for a in arms:
@@ -183,7 +201,7 @@ def r1_factory(ctx, mod, pc) -> None:
             '_validate_bounds(bounds) on both arms before the constructor',
             'a numeric arm reaches the constructor without _validate_bounds: non-finite or reversed bounds are accepted',
             construct='bounds', func=fi.qualname)
-  vbf = mod.functions.get('_validate_bounds')
+  vbf = _anchor_fn(mod, '_validate_bounds')
   t = unparse(vbf.node, 0) if vbf else ''
   ctx.check('isfinite' in t and ('lower > upper' in t or 'bounds[0] > bounds[1]' in t or 'upper < lower' in t) and t.count('raise') >= 2,
             'R1', '_validate_bounds rejects non-finite and reversed bounds', vbf.node if vbf else fi.node,
@@ -192,7 +210,7 @@ def r1_factory(ctx, mod, pc) -> None:
   # feasible values: from the branch on which they are given, every path to the constructor (a) passes the duplicate
   # test, (b) passes one of the two normalisers, each under its own kind test (so mixed kinds cannot get through)
   # the branch that selects the feasible-values arm: a test on feasible_values whose true side reaches a normaliser
-  norm_nodes = [n for n in g.nodes if any((dotted(c.func) or '') in ('_get_feasible_points_and_bounds', '_get_categories')
+  norm_nodes = [n for n in g.nodes if any(_last(c) in ('_get_feasible_points_and_bounds', '_get_categories')
                                           for c in flow.node_calls(n))]
   fv_tests = [n for n in g.nodes if n.kind == 'test' and unparse(n.ast, 0) in ('feasible_values', 'feasible_values is not None')
               and any(x in g.reachable([m for m, lab in n.succs if lab == 'T'], include_starts=True) for x in norm_nodes)
@@ -208,9 +226,9 @@ def r1_factory(ctx, mod, pc) -> None:
   ctx.check(okd, 'R1', 'duplicate feasible values rejected before type inference', fi.node,
             'every path from "feasible values given" to the constructor passes the raising duplicate test',
             'duplicate feasible values are not rejected on every path', construct='duplicates', func=fi.qualname)
-  num = [n for n in g.nodes if any((dotted(c.func) or '') == '_get_feasible_points_and_bounds' for c in flow.node_calls(n))]
-  cat = [n for n in g.nodes if any((dotted(c.func) or '') == '_get_categories' for c in flow.node_calls(n))]
-  f1, f2 = mod.functions.get('_get_feasible_points_and_bounds'), mod.functions.get('_get_categories')
+  num = [n for n in g.nodes if any(_last(c) == '_get_feasible_points_and_bounds' for c in flow.node_calls(n))]
+  cat = [n for n in g.nodes if any(_last(c) == '_get_categories' for c in flow.node_calls(n))]
+  f1, f2 = _anchor_fn(mod, '_get_feasible_points_and_bounds'), _anchor_fn(mod, '_get_categories')
   t1 = unparse(f1.node, 0) if f1 else ''
   t2 = unparse(f2.node, 0) if f2 else ''
 
